@@ -1667,6 +1667,27 @@ def replay(rec):
     rc = 0
     for f in rec.get('failures', []) + rec.get('k_failures', []):
         case = f['case'].get('case', f['case']) if isinstance(f['case'], dict) else None
+        if case and ('constructor' in case or 'function' in case):
+            chk = Check('C11', 'replay', 0)
+            sweep = constructor_sweep if 'constructor' in case else function_sweep
+            sweep(chk, np.random.default_rng(0))
+            print('%s: %d direct failures on replay' % (sweep.__name__, len(chk.d_fail)))
+            for d in chk.d_fail[:5]:
+                print('   ', d['what'], d['case'].get('changed'))
+            rc = rc or (1 if chk.d_fail else 0)
+            continue
+        if case and 'ops' not in case and 'dseed' in case and case.get('class') in specs:
+            spec = specs[case['class']]
+            df = spec.data(np.random.default_rng(case['dseed']), case['cell'], case['n'])
+            new_context(df)
+            w = Watch()
+            w.add('df', df)
+            WATCH[0] = w
+            probe_unavailable(np.random.default_rng(0), spec, case['cell'], df)
+            bad = w.changed()
+            print('%s fully specified and fitted on the stored data set: changed %s' % (spec.name, bad))
+            rc = rc or (1 if bad else 0)
+            continue
         if not case or 'ops' not in case:
             print('not a history case:', f['what'])
             continue
